@@ -127,7 +127,7 @@ var noInitPkgs = map[string]bool{
 	"unicode": true, "encoding/json": true, "mime": true, "mime/multipart": true, "net/textproto": true,
 	"github.com/hanwen/go-fuse/v2/fuse": true, "github.com/hanwen/go-fuse/v2/fs": true,
 	"github.com/klauspost/compress/zstd": true, "compress/flate": true, "compress/gzip": false,
-	"go.etcd.io/bbolt": true, "github.com/containerd/stargz-snapshotter/fs/metrics/common": true,
+	"github.com/containerd/stargz-snapshotter/fs/metrics/common": true,
 	"github.com/containerd/stargz-snapshotter/fs/metrics/layer": true,
 }
 
@@ -143,6 +143,17 @@ func (i *interpreter) ensureInit(pkg *ssa.Package) {
 				i.globals[g] = &cell
 			}
 		}
+	}
+	if pkg.Pkg.Path() == "os" {
+		// package os is modelled, but its exported error values alias io/fs's and are compared by identity
+		if fsPkg := i.prog.ImportedPackage("io/fs"); fsPkg != nil {
+			for _, n := range []string{"ErrInvalid", "ErrPermission", "ErrExist", "ErrNotExist", "ErrClosed"} {
+				if g, src := pkg.Var(n), fsPkg.Var(n); g != nil && src != nil {
+					*i.globals[g] = *i.global(src)
+				}
+			}
+		}
+		return
 	}
 	if noInitPkgs[pkg.Pkg.Path()] {
 		return
@@ -190,6 +201,9 @@ func (fr *frame) runDefer(d *deferred) {
 			r := recover()
 			if pe, isEnd := r.(pathEnd); isEnd {
 				panic(pe)
+			}
+			if cp, isCrash := r.(crashPanic); isCrash {
+				panic(cp)
 			}
 			if _, isErr := r.(runtime.Error); isErr {
 				panic(r)
@@ -598,6 +612,8 @@ func (i *interpreter) runFrame(fr *frame) {
 			panic(r) // path termination: never runs target defers
 		case threadKill:
 			panic(r)
+		case crashPanic:
+			panic(r) // simulated process death: no deferred call of the code under test runs
 		case targetPanic:
 			if r.info == nil {
 				r.info = &panicInfo{stack: i.stackString(), pos: i.posString(i.lastPos)}
@@ -631,6 +647,8 @@ func (i *interpreter) runFrame(fr *frame) {
 }
 
 type engineError struct{ msg string }
+
+type crashPanic struct{}
 
 // executePhis executes the phi-nodes at the start of the current block and returns the non-phi instructions.
 func executePhis(fr *frame) []ssa.Instruction {
